@@ -138,7 +138,7 @@ def compile : Ast → Needed → Except CErr (Compiled × Needed)
       pure ({ r with query := { r.query with select := cols.map (·.1) } }, (uidsOfVerb nd).foldl Needed.decr needed2)
   | .rename _ c m, needed => do
       let (r, needed) ← compile c needed
-      let defs := r.defs.map (fun e => (e.1, Spec.renameName m e.2.1, e.2.2))
+      let defs := r.defs.map (fun e => (e.1, renameName m e.2.1, e.2.2))
       pure ({ r with defs := defs }, needed)
   | nd@(.mutate _ c names vals uuids _), needed => do
       let needed1 := (uidsOfVerb nd).foldl Needed.incr needed
